@@ -1340,3 +1340,15 @@ def sdict_update(E, d, args, node):
     for k, v in args.kw.items():
         d.items[k] = [True, v]
     return None
+
+
+@libfn('numpy.size')
+def np_size(E, args, node):
+    v = args.pos[0]
+    if isinstance(v, Arr):
+        r = None
+        for d in v.shape:
+            t = d if not isinstance(d, int) else z3.IntVal(d)
+            r = t if r is None else r * t
+        return Z(z3.simplify(r), INT)
+    raise Unsupported('np.size(%r)' % (v,))
